@@ -200,3 +200,16 @@ package interp
 //@   exec-ensures cancelled-stops: selChosen == nbClause ==> ret == nil
 //@   exec-loop 1
 //@   invariant done-case-kept: len(cases) == nbClause+1 && isDone(cases[nbClause], f)
+
+// The receiver of a method reached through embedded fields (host calls of script methods, method values,
+// interface wrappers): at EVERY step of the field path a pointer is dereferenced before the field is
+// taken — an embedded *B in the middle of the path is followed, not only one at its start.
+//@ lit genValueRecv calls:Field (f) (r)
+//@   props C07
+//@   opt safety = off
+//@   opt opaque-calls = *
+//@   opt opaque-havoc = none
+//@   opt fn-values = pure
+//@   opt record-calls = Field
+//@   loop 1 index k
+//@   step field-k-of-the-pointee-when-the-value-is-a-pointer: called(Field) && lastArg(Field, 0) == fi[k] && lastRecv(Field) == ite(rvKind(old(r)) == reflect.Ptr, rvElem(old(r)), old(r))
